@@ -86,6 +86,8 @@ type HistoryCase struct {
 	// environment_dependence: Index compiled alone, in a fresh process, with these variables set
 	// (and another working directory) against the same in the default environment
 	Env map[string]string `json:"env,omitempty"`
+	// process_crash: a process compiling Order one after the other died with a Go fatal error
+	Crash bool `json:"crash,omitempty"`
 }
 
 func replayHistory(rp *Replay) int {
@@ -113,6 +115,52 @@ func replayHistory(rp *Replay) int {
 			return 1
 		}
 		fmt.Println("REPLAY: no violation (the edited bundle compiles identically with and without the earlier compilation)")
+		return 0
+	}
+	if hc.Crash {
+		// repeat the list up to 48 times, 16 processes at a time: the crash needs two goroutines of
+		// the code under test to overlap physically
+		var idx []string
+		for _, i := range hc.Order {
+			idx = append(idx, fmt.Sprint(i))
+		}
+		total := 0
+		for batch := 0; batch < 3; batch++ {
+			type res struct {
+				err    error
+				stderr string
+			}
+			ch := make(chan res, 16)
+			for k := 0; k < 16; k++ {
+				go func() {
+					cmd := exec.Command(os.Args[0], "-mode", "refdigest", "-seed", fmt.Sprint(rp.MasterSeed), "-gen", hc.GenCfg, "-indices", strings.Join(idx, ","))
+					cmd.Env = append(os.Environ(), "GOMAXPROCS=16")
+					var eb strings.Builder
+					cmd.Stderr = &eb
+					err := cmd.Run()
+					ch <- res{err, eb.String()}
+				}()
+			}
+			hits := 0
+			first := ""
+			for k := 0; k < 16; k++ {
+				r := <-ch
+				total++
+				if r.err != nil && strings.Contains(r.stderr, "fatal error:") {
+					hits++
+					for _, l := range strings.Split(r.stderr, "\n") {
+						if strings.HasPrefix(l, "fatal error:") && first == "" {
+							first = l
+						}
+					}
+				}
+			}
+			if hits > 0 {
+				fmt.Printf("REPLAY: violation class=process_crash: a process compiling programs %v one after the other died in %d of %d repetitions: %s\n", hc.Order, hits, total, first)
+				return 1
+			}
+		}
+		fmt.Printf("REPLAY: no violation (no crash in %d repetitions)\n", total)
 		return 0
 	}
 	// fresh digest from the current tree: a child process that compiles only the target
@@ -291,6 +339,7 @@ func main() {
 	indices := flag.String("indices", "", "refdigest mode: comma-separated program indices, in execution order")
 	skip := flag.String("skip", "", "worker mode: comma-separated program indices to skip (their reference execution kills the process)")
 	flag.Parse()
+	initRaceLog()
 
 	log.DefaultLogger = log.NewCallbackLogger(func(string, string, map[string]interface{}) {})
 	stdlog.SetOutput(io.Discard)
@@ -389,6 +438,41 @@ func main() {
 		fmt.Fprintln(os.Stderr, "unknown mode")
 		os.Exit(2)
 	}
+}
+
+// Race log of the race-enabled workers (two of the sixteen run a -race build of the same harness:
+// goroutines that the compile path may start must not race, whatever the Go scheduler does).
+var raceLogPath string
+var raceLogOff int64
+
+func initRaceLog() {
+	for _, kv := range strings.Fields(os.Getenv("GORACE")) {
+		if strings.HasPrefix(kv, "log_path=") {
+			raceLogPath = fmt.Sprintf("%s.%d", strings.TrimPrefix(kv, "log_path="), os.Getpid())
+		}
+	}
+}
+
+func newRaceReports() string {
+	if raceLogPath == "" {
+		return ""
+	}
+	st, err := os.Stat(raceLogPath)
+	if err != nil || st.Size() <= raceLogOff {
+		return ""
+	}
+	f, err := os.Open(raceLogPath)
+	if err != nil {
+		return ""
+	}
+	defer f.Close()
+	buf := make([]byte, st.Size()-raceLogOff)
+	_, _ = f.ReadAt(buf, raceLogOff)
+	raceLogOff = st.Size()
+	if !strings.Contains(string(buf), "github.com/pentops/j5/internal/") && !strings.Contains(string(buf), "github.com/pentops/j5/lib/") {
+		return "" // nothing of the code under test in it
+	}
+	return string(buf)
 }
 
 var skipIdx = map[int]bool{}
@@ -491,6 +575,10 @@ func runWorker(master uint64, worker, workers, execs, maxProgs int, budget float
 			cfg := genExecCfg(p, simrt.Derive(progSeed, uint64(e)))
 			writeMarker(e, cfg)
 			v, ex := runExec(p, ref, cfg, stats)
+			if rr := newRaceReports(); rr != "" && v == nil {
+				stats.Probes["race_reports"]++
+				v = &Violation{Class: "data_race", Form: "", OpIndex: -1, Detail: "the Go race detector reported, during this execution:\n" + truncate(rr, 5000)}
+			}
 			stats.Executions++
 			stats.Ops += len(cfg.Ops)
 			stats.ByMode[cfg.Mode]++
@@ -628,7 +716,7 @@ func runReplay(file string) int {
 		fmt.Fprintln(os.Stderr, "replay:", err)
 		return 2
 	}
-	if rp.Violation.Class == "process_history_dependence" || rp.Violation.Class == "environment_dependence" {
+	if rp.Violation.Class == "process_history_dependence" || rp.Violation.Class == "environment_dependence" || (rp.Violation.Class == "process_crash" && rp.History != nil) {
 		return replayHistory(&rp)
 	}
 	p, err := rp.Program.ToProgram()
@@ -701,6 +789,10 @@ func runReplay(file string) int {
 		if reps == 1 && vi != nil {
 			break
 		}
+	}
+	if rr := newRaceReports(); rr != "" && (v == nil || rp.Violation.Class == "data_race") {
+		fmt.Printf("REPLAY: violation class=data_race: the Go race detector reports, while this execution is repeated:\n%s\n", truncate(rr, 3000))
+		return 1
 	}
 	if v == nil {
 		fmt.Println("REPLAY: no violation (the recorded violation does not occur on this tree)")
